@@ -25,6 +25,48 @@ EXCEPTIONS = {("directive::Directive::parse", "parser::parse_file_internal"): "e
 ROOTS = ["builder::build_str", "builder::build_file"]
 
 
+def kept_line_locals(P, fn):
+    """named locals of fn whose every assignment is the constant 0 or a copy of a value computed as <something> + 1 (the current line
+    number); at least one such local must exist and be assigned a line number somewhere"""
+    b = P.body[fn]
+    ch = MU.Chaser(b)
+    asg = {}
+    for bl in b["blocks"]:
+        for st in bl["stmts"]:
+            if st["k"] == "assign" and not st["place"]["proj"] and b["locals"][st["place"]["local"]].get("name"):
+                asg.setdefault(st["place"]["local"], []).append(st["rv"])
+
+    def is_line_number(op):
+        r = ch.root(op, through_calls=False)
+        if r[0] is None:
+            return False
+        d = ch.single_def(r[0])
+        return bool(d and d[0] == "stmt" and d[2]["k"] == "bin" and d[2]["op"] == "AddWithOverflow" and "const" in d[2]["r"] and d[2]["r"]["const"].get("int") == "1")
+
+    out = []
+    for l, rvs in asg.items():
+        consts = [rv for rv in rvs if rv["k"] == "use" and "const" in rv["op"]]
+        copies = [rv for rv in rvs if rv["k"] == "use" and "const" not in rv["op"]]
+        if len(consts) + len(copies) != len(rvs) or not copies:
+            continue
+        if all(rv["op"]["const"].get("int") == "0" for rv in consts) and all(is_line_number(rv["op"]) for rv in copies):
+            out.append(b["locals"][l]["name"])
+    return out
+
+
+def first_round_can_be_unterminated(P):
+    """whether the scanner, in the mode parse_iter starts in, can report that it ran out of text while searching (third component of its
+    result): read from the SCAN table C08 extracts"""
+    class Quiet:
+        def __getattr__(self, name):
+            return lambda *a, **k: None
+    table, _, _ = rules_C08.scan_table(P, Quiet())
+    rows = table.get("NewLine")
+    if not rows:
+        return True
+    return any(act[0] == 'none' and len(act) > 2 and act[2] for cls, cz, act, wf in rows)
+
+
 def codepoint_line_args(text):
     """first argument of every  CodePoint::CodePoint(<line>, <num>)  occurring in a description string"""
     out = []
@@ -242,7 +284,14 @@ def run(tier):
                             pts.update(codepoint_line_args(a))
             if p.exit == "Err":
                 pts.update(codepoint_line_args(M.describe(p.state, p.ret)))
-        ok = bool(pts) and all(re.match(r"^\(skip\(.*\)(@\d+)?(\.0)?:Some\.0\.0 \+ 1\)$", x) for x in pts)
+        plus_one = re.compile(r"^\(skip\(.*\)(@\d+)?(\.0)?:Some\.0\.0 \+ 1\)$")
+        # a line number kept from an earlier round (the line that opened what is being skipped): a local that is only ever given the
+        # current line number, and whose initial 0 is never shown - the error that shows it needs a search for .endif/.endmacro to have
+        # run, which the scanner does not do in the mode the loop starts in
+        kept = set()
+        if "0" in pts and kept_line_locals(P, fn) and not first_round_can_be_unterminated(P):
+            kept.add("0")
+        ok = bool(pts - kept) and all(plus_one.match(x) for x in pts - kept)
         rep.ob("C15.line-number|plus-one", ok, "every CodePoint built for a source line is (index delivered by the line iterator + 1) [%d shapes]" % len(pts) if ok else
                "CodePoint line numbers are %s" % sorted(pts)[:3])
     else:
